@@ -1,10 +1,10 @@
 #!/bin/bash
 # usage: tools/batch2.sh <property id> <variantA> <variantB>: test and archive the two second-batch changes of /tmp/wt/out2/<id>
-p=$1; a=$2; b=$3
+p=$1; a=$2; b=$3; OUT=${OUT:-/tmp/wt/out2}
 for pair in "A $a" "B $b"; do set -- $pair; x=$1; t=$2
   echo "### $p/$x -> $p-$t"
-  /verif/tools/seedtest.sh /tmp/wt/out2/$p/$x.patch.diff $p | head -3 | cut -c1-260
-  /verif/tools/confirm_seed.sh /tmp/wt/out2/$p $p $x $t | tail -1
+  /verif/tools/seedtest.sh $OUT/$p/$x.patch.diff $p | head -3 | cut -c1-260
+  /verif/tools/confirm_seed.sh $OUT/$p $p $x $t | tail -1
   if [ -d /verif/seeded/$p-$t ]; then python3 - "$p" "$t" <<'PY'
 import json,os,re,sys
 pid,x=sys.argv[1],sys.argv[2]
@@ -12,7 +12,7 @@ p='/verif/seeded/%s-%s'%(pid,x)
 files=sorted(set(re.findall(r'^\+\+\+ b/(\S+)', open(os.path.join(p,'patch.diff')).read(), re.M)))
 meta={"property":pid,"variant":x,"files_changed":files,"base":"8c7f6d6",
       "needs_to_manifest":"see notes.md (written by the sub-agent that produced the change, from the property text alone)",
-      "produced_by":"second batch: fresh sub-agent given only the property text and a scratch worktree of /repo at 8c7f6d6",
+      "produced_by":"second batch: fresh sub-agent given only the property text and a scratch worktree of /repo at 8c7f6d6 (batch: " + os.environ.get("OUT", "out2") + ")",
       "confirmed":{"how":"tools/confirm_seed.sh in a scratch worktree under /tmp (removed afterwards)","builds":True,
                    "existing_suite_passes_with_change":True,"demo_passes_without_change":True,"demo_fails_with_change":True},
       "demo":"demo_test.go (package in its first line)"}
